@@ -56,6 +56,9 @@ var wants = []want{
 	{"pkg/blobserver/diskpacked/reindex.go", "selcalls:Stat", "walkPack", "dp_walk_checks_file_size"},
 	// diskpacked: does RemoveBlobs commit the index deletion before it touches the pack (first CommitBatch before first delete call)
 	{"pkg/blobserver/diskpacked/diskpacked.go", "callorder:CommitBatch<delete", "RemoveBlobs", "dp_remove_commits_index_first"},
+	// diskpacked: inside delete(), is the header rewritten (first WriteAt) before the data is destroyed (first punchHole / CopyN)?
+	{"pkg/blobserver/diskpacked/dele.go", "callorder:WriteAt<punchHole", "delete", "dp_delete_header_before_punch"},
+	{"pkg/blobserver/diskpacked/dele.go", "callorder:WriteAt<CopyN", "delete", "dp_delete_header_before_zero"},
 	// blobpacked: does RemoveBlobs hand the loose store every blob it was given (and not only those without a meta row)?
 	{"pkg/blobserver/blobpacked/blobpacked.go", "removeall:small", "RemoveBlobs", "bp_remove_loose_of_all"},
 	// every handler type registered anywhere under pkg/ (first argument of blobserver.RegisterHandlerConstructor)
@@ -426,7 +429,7 @@ func main() {
 				return true
 			})
 			fmt.Fprintf(&b, "Definition %s : bool := %v.\n", w.coqName, found)
-		case "callorder:CommitBatch<delete":
+		case "callorder:CommitBatch<delete", "callorder:WriteAt<punchHole", "callorder:WriteAt<CopyN":
 			fd, ok := fi.funcs[w.goName]
 			if !ok {
 				fail(fmt.Errorf("func not found"))
@@ -435,10 +438,15 @@ func main() {
 			first := map[string]token.Pos{}
 			ast.Inspect(fd.Body, func(n ast.Node) bool {
 				if ce, ok := n.(*ast.CallExpr); ok {
-					if se, ok := ce.Fun.(*ast.SelectorExpr); ok {
-						if _, seen := first[se.Sel.Name]; !seen {
-							first[se.Sel.Name] = ce.Pos()
-						}
+					name := ""
+					switch f := ce.Fun.(type) {
+					case *ast.SelectorExpr:
+						name = f.Sel.Name
+					case *ast.Ident:
+						name = f.Name
+					}
+					if _, seen := first[name]; !seen && name != "" {
+						first[name] = ce.Pos()
 					}
 				}
 				return true
